@@ -256,6 +256,17 @@ func (sc *collection) doBuild(ctx context.Context) (Provider, error) {
 		}
 	}
 
+	// Every required dependency must be registered, whatever the lifetime of the
+	// dependent: scoped and transient services are not constructed during Build,
+	// so a missing dependency would otherwise only surface at resolution.
+	if err := sc.validateDependencies(allDescriptors); err != nil {
+		return nil, &BuildError{
+			Phase:   "validation",
+			Details: "dependency validation failed",
+			Cause:   err,
+		}
+	}
+
 	// Phase 4: Create provider with fast ID generation
 	// Count void-return scoped descriptors for pre-allocation
 	voidCount := 0
@@ -729,6 +740,40 @@ func (r *collection) registerDescriptor(descriptor *Descriptor) error {
 
 	// Track in allDescriptors for efficient iteration
 	r.allDescriptors = append(r.allDescriptors, descriptor)
+
+	return nil
+}
+
+// validateDependencies ensures that every non-optional dependency of every
+// registered service is itself registered or is one of the built-in
+// injectables (context.Context, Scope, Provider). Group dependencies may be
+// empty and optional dependencies may be missing.
+func (c *collection) validateDependencies(descriptors []*Descriptor) error {
+	for _, descriptor := range descriptors {
+		if descriptor == nil {
+			continue
+		}
+
+		for _, dep := range descriptor.Dependencies {
+			if dep == nil || dep.Optional || dep.Group != "" {
+				continue
+			}
+
+			if dep.Key == nil {
+				if _, isBuiltin := reservedTypes[dep.Type]; isBuiltin {
+					continue
+				}
+			}
+
+			if _, ok := c.services[TypeKey{Type: dep.Type, Key: dep.Key}]; !ok {
+				return &ResolutionError{
+					ServiceType: dep.Type,
+					ServiceKey:  dep.Key,
+					Cause:       fmt.Errorf("required by %s: %w", formatType(descriptor.Type), ErrServiceNotFound),
+				}
+			}
+		}
+	}
 
 	return nil
 }
